@@ -136,11 +136,11 @@ end Inc
 
 namespace Ext
 
-theorem resolve_mono (fs : FS) (main : String) : ∀ (fuel : Nat) (svcs : Services) (name : String) (tr : Tracker),
+theorem resolve_mono (fs : FS) : ∀ (fuel : Nat) (main : String) (svcs : Services) (name : String) (tr : Tracker),
     (resolve fs main fuel svcs name tr).1 ≠ .outOfFuel →
     resolve fs main (fuel + 1) svcs name tr = resolve fs main fuel svcs name tr
-  | 0, _, _, _, h => by unfold resolve at h; exact absurd rfl h
-  | fuel + 1, svcs, name, tr, h => by
+  | 0, _, _, _, _, h => by unfold resolve at h; exact absurd rfl h
+  | fuel + 1, main, svcs, name, tr, h => by
     unfold resolve at h ⊢
     split
     · rfl
@@ -157,14 +157,14 @@ theorem resolve_mono (fs : FS) (main : String) : ∀ (fuel : Nat) (svcs : Servic
         · rfl
         · rename_i tr' hadd
           simp only [hadd] at h
-          have hne : (resolve fs main fuel (target.getD svcs) ref tr').1 ≠ .outOfFuel := by
+          have hne : (resolve fs file fuel (target.getD svcs) ref tr').1 ≠ .outOfFuel := by
             intro he
-            generalize resolve fs main fuel (target.getD svcs) ref tr' = res at h he
+            generalize resolve fs file fuel (target.getD svcs) ref tr' = res at h he
             obtain ⟨r1, b, s'⟩ := res
             simp only at he
             subst he
             simp at h
-          rw [resolve_mono fs main fuel (target.getD svcs) ref tr' hne]
+          rw [resolve_mono fs fuel file (target.getD svcs) ref tr' hne]
 
 theorem resolve_mono_le (fs : FS) (main : String) (svcs : Services) (name : String) (tr : Tracker) (fuel : Nat)
     (h : (resolve fs main fuel svcs name tr).1 ≠ .outOfFuel) :
@@ -173,7 +173,7 @@ theorem resolve_mono_le (fs : FS) (main : String) (svcs : Services) (name : Stri
   | k + 1 => by
     have ih := resolve_mono_le fs main svcs name tr fuel h k
     have : (resolve fs main (fuel + k) svcs name tr).1 ≠ .outOfFuel := by rw [ih]; exact h
-    rw [← Nat.add_assoc, resolve_mono fs main (fuel + k) svcs name tr this, ih]
+    rw [← Nat.add_assoc, resolve_mono fs (fuel + k) main svcs name tr this, ih]
 
 end Ext
 end CV.C01
